@@ -208,7 +208,7 @@ impl Check for C15 {
         vec![Unit::gen("lists", 16, tier.pick(500, 5000)), Unit::enumerate("full_device", 2)]
     }
     fn required_classes(&self, _tier: Tier) -> Vec<&'static str> {
-        vec!["outcome:ok", "outcome:failed", "inputs_before_failure:0", "inputs_before_failure:1", "inputs_before_failure:3", "earlier_output_below_stdout_buffer", "earlier_output_above_stdout_buffer", "stdout:Pipe", "stdout:File", "full_device"]
+        vec!["outcome:ok", "outcome:failed", "inputs_before_failure:0", "inputs_before_failure:1", "inputs_before_failure:3", "earlier_output_below_stdout_buffer", "earlier_output_above_stdout_buffer", "stdout:Pipe", "stdout:File", "full_device", "stdout_file_shared_with_stderr"]
     }
     fn run_unit(&self, unit: &Unit, shard: u32, seed: u64, _tier: Tier, rec: &mut Recorder) {
         if unit.name == "full_device" {
@@ -216,6 +216,46 @@ impl Check for C15 {
             // stdout on a full device nothing can be written, so no run that
             // produces output may exit 0 - whether the output is below the stdout
             // buffer (only the final flush meets the error) or above it
+            // "> log 2>&1": standard output is a regular file and standard error the same
+            // open file description; the diagnostic of a later failing input must come
+            // after the translations already written, not over them
+            for to in [Fmt::Json, Fmt::Yaml, Fmt::Msgpack] {
+                for size in [0u8, 1, 2, 3] {
+                    for n_good in [1usize, 3] {
+                        let sc = crate::cli::Scratch::new("c15s");
+                        let mut args: Vec<std::ffi::OsString> = vec![format!("-t{}", to.name()).into()];
+                        let mut expected: Vec<u8> = vec![];
+                        for i in 0..n_good {
+                            let fmt = [Fmt::Json, Fmt::Yaml, Fmt::Msgpack][i % 3];
+                            let name = format!("in{}.{}", i, ext(fmt));
+                            let text = good_text(fmt, &Val::Bool(true), size, i);
+                            expected.extend(crate::xtapi::run_slice(&text, Some(fmt), to).out);
+                            sc.file(&name, &text);
+                            args.push(name.into());
+                        }
+                        args.push("nowhere.json".into());
+                        let bin = if shard == 0 { Bin::Debug } else { Bin::Release };
+                        let res = crate::cli::run_xt_full(bin, &args, &sc.dir, crate::cli::StdinSpec::Null, crate::cli::StdoutSpec::File, crate::cli::StderrSpec::SameAsStdoutFile, vec![], 60);
+                        let cj = json!({"unit": "shared_log", "to": to.name(), "inputs": n_good, "size": size, "bin": bin.name()});
+                        if res.code != Some(1) || !res.stdout.starts_with(&expected) {
+                            rec.fail(
+                                format!(
+                                    "stdout a file shared with stderr (> log 2>&1), {} good input(s) then a missing one: expected exit 1 and a log that starts with the {} bytes already translated, got {} and a log of {} bytes starting {:?}",
+                                    n_good,
+                                    expected.len(),
+                                    res.status(),
+                                    res.stdout.len(),
+                                    crate::util::brief_bytes(&res.stdout)
+                                ),
+                                cj,
+                            );
+                            return;
+                        }
+                        rec.count(Some(hash_of(&cj.to_string())));
+                        rec.class("stdout_file_shared_with_stderr");
+                    }
+                }
+            }
             for to in FORMATS {
                 for n_inputs in [1usize, 2, 4] {
                     for size in [0u8, 1, 2, 3] {
@@ -245,7 +285,7 @@ impl Check for C15 {
         run_prop(rec, seed, unit.cases, case_strategy(), |c| build(c).to_json("lists"), |c, r| check_invocation(&build(c), r));
     }
     fn replay(&self, case: &J) -> Result<(), String> {
-        if case["unit"].as_str() == Some("full_device") {
+        if matches!(case["unit"].as_str(), Some("full_device") | Some("shared_log")) {
             return Err("re-run ./check C15 quick (the full_device unit is a fixed enumeration)".into());
         }
         check_invocation(&Invocation::from_json(case).ok_or("bad invocation")?, &mut Recorder::default())
